@@ -265,4 +265,48 @@ def trailTrigger (es : List Extent) (bs off n : Nat) : Bool :=
   es.any (fun e => decide (off / bs < e.fileBlock + e.count ∧ (e.fileBlock + e.count) * bs < off + n)) &&
   es.any (fun e => decide (off + n ≤ e.fileBlock * bs ∧ e.start * bs + (off + n) < e.fileBlock * bs))
 
+/-! ### File.Read with the guard `if leftInExtent < 0 { continue }` (fix ext4-read-extent-out-of-order)
+
+  `skip = false` is `readLoop` / `readE` above; `skip = true` passes over an extent that lies wholly before the
+  offset the loop has reached instead of handing `make` a negative length.  The driver runs `readES` with the
+  switch the engine passes (`skipneg=1`); on lists that `readE` reads without a panic — every sorted list — the
+  two agree (Proofs/Ext4ReadSkipNeg.lean readES_eq). -/
+
+def readLoopS (skip lt : Bool) (dev : Dev) (bs startBlock want : Nat) :
+    List Extent → (off : Nat) → (got : Bytes) → (ios : List (Nat × Nat)) → IO RdOut
+  | [], off, got, ios =>
+    .ok ⟨got ++ zeros (want - got.length), ios, off + (want - got.length)⟩
+  | e :: es, off, got, ios =>
+    if skips lt e startBlock then readLoopS skip lt dev bs startBlock want es off got ios
+    else
+      let extentSize := e.count * bs
+      let holeEnd := e.fileBlock * bs
+      let z := if off < holeEnd then min (holeEnd - off) (want - got.length) else 0
+      if off < holeEnd ∧ got.length + z ≥ want then .ok ⟨got ++ zeros z, ios, off + z⟩
+      else
+        let got := got ++ zeros z
+        let off := off + z
+        let startPos := off - holeEnd
+        if startPos > extentSize then
+          (if skip then readLoopS skip lt dev bs startBlock want es off got ios else .panic)
+        else
+          let left := extentSize - startPos
+          let toRead := min (want - got.length) left
+          let disk := e.start * bs + startPos
+          let got' := got ++ readAt dev disk toRead
+          let ios' := ios ++ [(disk, toRead)]
+          if got'.length ≥ want then .ok ⟨got', ios', off + toRead⟩
+          else readLoopS skip lt dev bs startBlock want es (off + toRead) got' ios'
+
+def readES (skip lt : Bool) (dev : Dev) (bs : Nat) (es : List Extent) (size off n : Nat) : IO ReadRes :=
+  if off ≥ size then .ok ⟨[], [], off, true⟩
+  else
+    let want := if off + n > size then size - off else n
+    match readLoopS skip lt dev bs (off / bs) want es off [] [] with
+    | .ok r => .ok ⟨r.data, r.ios, r.off, r.off ≥ size⟩
+    | .panic => .panic
+    | .weird => .weird
+    | .needAlloc => .needAlloc
+    | .err => .err
+
 end Diskfs.Ext4
